@@ -120,3 +120,48 @@ UNITS.append(U(name='htp_conn_remove_tx', props=['C04', 'C10', 'C01'], kind='con
                harness='void HARNESS(void) { htp_conn_t *c; const htp_tx_t *t; htp_conn_remove_tx(c, t); CANARY(); }', defs=D, min_obl=30,
                sub='removing a transaction: only a slot that held it becomes NULL; size, order and every other slot unchanged (indices stay valid); present => OK, absent => DECLINED with nothing changed',
                assumes=['transaction list capacity <= LCAP (symbolic); real htp_list_array_size / get / replace bodies included', 'tx != NULL, conn and its list exist (the NULL guards are trivial early returns)']))
+
+# ---- line assembly helpers around the buffer: consolidate (what a line-oriented state sees) and clear; the consumed-count getters (C09) ----
+CONS_H = '''
+#define CH 8
+void htp_log(htp_connp_t *connp, const char *file, int line, enum htp_log_level_t level, int code, const char *fmt, ...) { }
+static void cons_case(const size_t BS, const size_t NN, size_t consume) {          /* BS, NN constants at every call site */
+  static htp_connp_t C; static htp_tx_t TX; static htp_cfg_t CFG;
+  htp_connp_t *c = &C;
+  unsigned char *chunk = malloc(CH); unsigned char *buf = BS ? malloc(BS) : NULL;
+  if (!chunk || (BS && !buf)) { free(chunk); free(buf); return; }
+  unsigned char init[CH]; for (int i = 0; i < CH; i++) chunk[i] = init[i];
+  unsigned char oldb[CH]; for (size_t i = 0; i < BS; i++) buf[i] = oldb[i];
+  CFG.field_limit_hard = 1000; TX.cfg = &CFG; TX.connp = c; c->DIR_tx = &TX; c->cfg = &CFG;
+  c->DIR_current_data = chunk; c->DIR_current_len = CH; c->DIR_current_consume_offset = (int64_t) consume; c->DIR_current_read_offset = (int64_t) (consume + NN);
+  c->DIR_buf = buf; c->DIR_buf_size = BS;
+  VASSERT(htp_connp_RQ_data_consumed(c) == consume + NN, "the consumed count reported to the caller is the read offset (where to resume after DATA_OTHER)");
+  unsigned char *data = NULL; size_t len = 4711;
+  htp_status_t rc = htp_connp_RQ_consolidate_data(c, &data, &len);
+  if (rc == HTP_OK) {
+    VASSERT(len == BS + NN, "the consolidated line = bytes buffered by earlier calls + the unconsumed bytes of this chunk (length)");
+    if (BS == 0) VASSERT(data == chunk + consume && c->DIR_buf == NULL && c->DIR_current_consume_offset == (int64_t) consume, "nothing buffered: the line is a range of the chunk itself, nothing is copied or moved");
+    else VASSERT(data == c->DIR_buf && c->DIR_buf_size == BS + NN, "something buffered: the line lives in the buffer");
+    if (gk < BS) VASSERT(data[gk] == oldb[gk], "buffered bytes first, in order");
+    if (gk < NN) VASSERT(data[BS + gk] == init[consume + gk], "then the chunk's unconsumed bytes, in order");
+  } else {
+    VASSERT(rc == HTP_ERROR && BS > 0 && data == NULL && len == 4711, "only the copying path can fail (allocation); the out-parameters are not written then");
+  }
+  htp_connp_RQ_clear_buffer(c);
+  VASSERT(c->DIR_buf == NULL && c->DIR_buf_size == 0 && c->DIR_current_consume_offset == c->DIR_current_read_offset && c->DIR_current_read_offset == (int64_t) (consume + NN),
+          "clear: buffer released, size 0, everything read so far counts as consumed");
+  free(chunk);
+}
+#define C(b, k) if (bs == (b) && n == (k)) { cons_case((b), (k), consume); }
+void HARNESS(void) { size_t bs, n, consume;
+  VASSUME(bs <= 3 && n <= 3 && consume <= CH && consume + n <= CH && gk < CH);
+  CASES
+  CANARY(); }'''
+for d, rq, src in (('in', 'req', 'htp_request.c'), ('out', 'res', 'htp_response.c')):
+    cases = ' '.join('C(%d, %d)' % (b, k) for b in range(4) for k in range(4))
+    UNITS.append(U(name='htp_connp_%s_consolidate_clear' % rq, props=['C03', 'C09', 'C10', 'C01', 'C18'], kind='lemma', src=[src], contracts_inc=[],
+                   harness=CONS_H.replace('DIR', d).replace('RQ', rq).replace('CASES', cases), defs={'quick': {}}, min_obl=100, timeout=(400, 900),
+                   flags_add=['--unwind', '10', '--unwinding-assertions', '--memory-leak-check'],
+                   sub='%s side, REAL functions: the line a line-oriented state sees = bytes buffered earlier ++ unconsumed bytes of the chunk (a range of the chunk itself when nothing is buffered); '
+                       'clear releases the buffer and marks everything read as consumed; the consumed count reported to the caller is the read offset; no leak, out-parameters untouched on failure' % ('request' if d == 'in' else 'response'),
+                   assumes=['buffer size and pending length enumerated as constants 0..3 each (symbolic-size realloc/memcpy cannot be bit-blasted); cursor position symbolic', 'htp_log given an empty body in the harness']))
